@@ -136,6 +136,13 @@ func refTemplate(ctx *types.XObject, t string) (out string, exact bool, exprs []
 
 // refTemplateIn is the statement's rule in a given world (context + its allowed top-level names).
 func refTemplateIn(w *world, t string) (out string, exact bool, exprs []refSegment) {
+	out, at, exprs := refTemplateAt(w, t)
+	return out, at < 0, exprs
+}
+
+// refTemplateAt is refTemplateIn which also says where the `@(` that is never closed stands (index in
+// runes, -1 if every `@(` is closed): out is the output for the text before it.
+func refTemplateAt(w *world, t string) (out string, at int, exprs []refSegment) {
 	ctx, allowed := w.ctx, w.allowed
 	r := []rune(t)
 	var sb strings.Builder
@@ -152,7 +159,7 @@ func refTemplateIn(w *world, t string) (out string, exact bool, exprs []refSegme
 		case i+1 < len(r) && r[i+1] == '(':
 			j := matchParen(r, i+2)
 			if j < 0 {
-				return sb.String(), false, exprs
+				return sb.String(), i, exprs
 			}
 			e := string(r[i+2 : j])
 			v, _ := evalExpression(ctx, e)
@@ -185,7 +192,98 @@ func refTemplateIn(w *world, t string) (out string, exact bool, exprs []refSegme
 			i++
 		}
 	}
-	return sb.String(), true, exprs
+	return sb.String(), -1, exprs
+}
+
+// refText is what the statement's rule says about one template text in one world.
+//
+// An `@(` that is never closed opens no expression, so it and what follows it is "template text
+// outside expressions" and passes through. The statement leaves one thing open there: whether an
+// `@@`, an `@name` or a further `@(`..`)` AFTER the unclosed `@(` is still read as template text or
+// stands as it is. Both readings are accepted (alts); every character of the template is accounted
+// for in either, and nothing else may appear in the output:
+//   - the unclosed `@(` and everything after it stands exactly as written (what the scanner does:
+//     it gives the rest of the input back as one piece of text);
+//   - the two characters `@(` are literal and the text after them is template text again (by the same
+//     rule, recursively).
+type refText struct {
+	want  string   // the output (exact) / the output for the text before the unclosed `@(`
+	exact bool     // every `@(` is closed
+	alts  []string // !exact: the complete outputs the statement allows
+	exprs []refSegment
+}
+
+func refOf(w *world, t string) refText {
+	out, at, exprs := refTemplateAt(w, t)
+	ref := refText{want: out, exact: at < 0, exprs: exprs}
+	if at >= 0 {
+		r := []rune(t)
+		ref.alts = []string{out + string(r[at:])}
+		rest := refOf(w, string(r[at+2:]))
+		cont := rest.alts
+		if rest.exact {
+			cont = []string{rest.want}
+		}
+		for _, c := range cont {
+			if a := out + "@(" + c; !has(ref.alts, a) {
+				ref.alts = append(ref.alts, a)
+			}
+		}
+	}
+	return ref
+}
+
+// tailState describes where a template that ends inside an unclosed `@(` (at rune index at) breaks
+// off, by the reference rule of matchParen: how many parentheses are open, whether the end is inside a
+// string literal, and whether the last character is a backslash that still waits for the character
+// it escapes.
+func tailState(r []rune, at int) (depth int, inLiteral, pendingEscape bool) {
+	depth = 1
+	for i := at + 2; i < len(r); i++ {
+		switch {
+		case inLiteral && r[i] == '\\':
+			if i+1 >= len(r) {
+				return depth, true, true
+			}
+			i++
+		case r[i] == '"':
+			inLiteral = !inLiteral
+		case !inLiteral && r[i] == '(':
+			depth++
+		case !inLiteral && r[i] == ')':
+			depth--
+		}
+	}
+	return depth, inLiteral, false
+}
+
+// deviation names how got differs from the nearest of the accepted outputs: characters that are in
+// no reading were added, characters of every reading were lost, or characters were replaced.
+func deviation(got string, alts []string) (kind, nearest string) {
+	best := -1
+	for _, a := range alts {
+		g, w := []rune(got), []rune(a)
+		n := 0
+		for n < len(g) && n < len(w) && g[n] == w[n] {
+			n++
+		}
+		g, w = g[n:], w[n:]
+		for len(g) > 0 && len(w) > 0 && g[len(g)-1] == w[len(w)-1] {
+			g, w = g[:len(g)-1], w[:len(w)-1]
+		}
+		if n > best {
+			best, nearest = n, a
+			switch {
+			case len(w) == 0:
+				kind = "characters-added"
+			case len(g) == 0:
+				kind = "characters-lost"
+			default:
+				kind = "characters-changed"
+			}
+		}
+	}
+	return
 }
 
 type scanTok struct {
@@ -200,6 +298,25 @@ func scan(t string) []scanTok {
 		return nil
 	})
 	return out
+}
+
+// reassemble scans t the way the library's template rewriters do (body text as it stands, `@@` not
+// unescaped) and puts the tokens back together: the scanner cuts a template into pieces, so the
+// pieces are the template.
+func reassemble(t string) string {
+	var sb strings.Builder
+	excellent.VisitTemplate(t, []string{"n", "f", "o"}, false, func(tt excellent.XTokenType, tok string) error {
+		switch tt {
+		case excellent.BODY:
+			sb.WriteString(tok)
+		case excellent.IDENTIFIER:
+			sb.WriteString("@" + tok)
+		case excellent.EXPRESSION:
+			sb.WriteString("@(" + tok + ")")
+		}
+		return nil
+	})
+	return sb.String()
 }
 
 // lexerBalanced asks the expression parser's lexer whether e is a closed expression: parentheses
@@ -237,8 +354,8 @@ type failure struct {
 // checkBody checks template text t (clause 1 of the statement and the scanner/parser agreement).
 func checkBody(t string) *failure {
 	out, _, pn := evalTemplate(baseCtx, t)
-	want, exact, _ := refTemplate(baseCtx, t)
-	if f := judgeText(t, out, pn, want, exact); f != nil {
+	ref := refOf(baseWorld, t)
+	if f := judgeText(t, out, pn, ref); f != nil {
 		return f
 	}
 	if strings.Contains(t, "@(") {
@@ -249,23 +366,68 @@ func checkBody(t string) *failure {
 				}
 			}
 		}
+		if !ref.exact {
+			if f := checkUnclosed(t); f != nil {
+				return f
+			}
+		}
+	}
+	return nil
+}
+
+// checkUnclosed is the scanner/parser agreement for a text with an `@(` that is never closed (by the
+// reference rule): the scanner gives the `@(` and what follows it back as text; then the pieces it
+// cuts must still add up to the template, and the parser's lexer must not see a closed expression
+// ending at any `)` after that `@(` either.
+func checkUnclosed(t string) *failure {
+	var pn string
+	var back string
+	if pn = mc.Guard(func() { back = reassemble(t) }); pn != "" {
+		return &failure{"panic:" + mc.PanicSite(pn), fmt.Sprintf("scanning %q panics: %s", t, pn)}
+	}
+	if back != t {
+		kind, _ := deviation(back, []string{t})
+		return &failure{"unclosed-expression:scanner-pieces:" + kind, fmt.Sprintf("template %q has an `@(` that is never closed; the pieces the scanner cuts (body text as it stands) add up to %q, not to the template", t, back)}
+	}
+	_, at, _ := refTemplateAt(baseWorld, t)
+	r := []rune(t)
+	for j := at + 2; j < len(r); j++ {
+		if r[j] != ')' {
+			continue
+		}
+		// a `)` inside a literal ends nothing for either side: only candidates the lexer itself reads as closed count
+		if ok, _ := lexerBalanced(string(r[at+2 : j])); ok {
+			return &failure{"scanner-parser-disagree:unclosed", fmt.Sprintf("template %q: the scanner finds no end for the expression opened at character %d and gives it back as text, but the parser's lexer reads %q as a closed expression", t, at, string(r[at+2:j]))}
+		}
 	}
 	return nil
 }
 
 // judgeText compares what Evaluator.Template gave for template text t (out, or the panic pn) with
-// the statement's rule (want; exact is false when only the output before an unclosed `@(` is specified).
-func judgeText(t, out, pn, want string, exact bool) *failure {
+// the statement's rule.
+func judgeText(t, out, pn string, ref refText) *failure {
 	if pn != "" {
 		return &failure{"panic:" + mc.PanicSite(pn), fmt.Sprintf("Evaluator.Template(%q) panics: %s", t, pn)}
 	}
-	if exact && out != want {
-		return &failure{"wrong-output", fmt.Sprintf("template %q evaluates to %q, the statement's rule gives %q", t, out, want)}
+	if ref.exact && out != ref.want {
+		return &failure{"wrong-output", fmt.Sprintf("template %q evaluates to %q, the statement's rule gives %q", t, out, ref.want)}
 	}
-	if !exact && !strings.HasPrefix(out, want) {
-		return &failure{"wrong-output-before-unclosed-expression", fmt.Sprintf("template %q evaluates to %q, the statement's rule gives %q before the unclosed `@(`", t, out, want)}
+	if !ref.exact && !strings.HasPrefix(out, ref.want) {
+		return &failure{"wrong-output-before-unclosed-expression", fmt.Sprintf("template %q evaluates to %q, the statement's rule gives %q before the unclosed `@(`", t, out, ref.want)}
+	}
+	if !ref.exact && !has(ref.alts, out) {
+		kind, nearest := deviation(out, ref.alts)
+		return &failure{"unclosed-expression-text:" + kind, fmt.Sprintf("template %q has an `@(` that is never closed, which is text and passes through: it evaluates to %q, the statement's rule gives %q (accepted readings of the text after the `@(`: %s)", t, out, nearest, quoteAll(ref.alts))}
 	}
 	return nil
+}
+
+func quoteAll(ss []string) string {
+	q := make([]string, len(ss))
+	for i, s := range ss {
+		q[i] = strconv.Quote(s)
+	}
+	return strings.Join(q, " or ")
 }
 
 // ---- string literals ------------------------------------------------------------------------------
